@@ -848,6 +848,11 @@ func evalUnary(unar *Unary, obj interface{}) (v interface{}, newObj interface{},
 			if unar.Op == "-" {
 				v = -vx
 			}
+		case int64:
+			// Integers of the record are int64, literals are float64
+			if unar.Op == "-" {
+				v = -vx
+			}
 		}
 	} else {
 		v, newObj, collapse, err = evalPrimary(unar.Primary, obj)
